@@ -166,6 +166,7 @@ int main() {
           x1 = Sym(1);
           x2 = (b * c - a * e) / det2;
         }
+        verif::output("nr2", x0 * x0 + x1 * x1 + x2 * x2);
         verif::output("nr", std::sqrt(x0 * x0 + x1 * x1 + x2 * x2));
       }
     }
